@@ -182,9 +182,12 @@ pub fn t2() -> BoxedStrategy<Value> {
                 t.swap_null(t0, C::Root(0), "Xs");
                 t.drop_rc(t0, "Xs");
                 t.run(t0);
-                // D starts releasing its reference and is parked inside
+                // D starts releasing its reference and is parked inside; once resumed it also
+                // hands its local bag over (otherwise its deferred attempt would sit there until
+                // D exits at the very end)
                 t.drop_rc(dd, "X");
                 t.run_until_site(dd, co_park, co_nth);
+                t.advance(dd, 1);
             }
             if rival > 0 {
                 t.pin(u2);
